@@ -28,6 +28,18 @@ for d in sorted(glob.glob(os.path.join(HERE, 'seeded', '*'))):
     else: st = 'not run'; ob = ''
     print('| %s | %s | %s | %s |' % (os.path.basename(d), m['property'], st, ob.replace('|', '/')))
 
+print()
+print('| behaviour-preserving change (benign/) | property | result of `./check` (must be exit 0) |')
+print('|---|---|---|')
+for d in sorted(glob.glob(os.path.join(HERE, 'benign', '*'))):
+    if not os.path.isdir(d): continue
+    m = json.load(open(os.path.join(d, 'meta.json')))
+    rp = os.path.join(d, 'check_result.json')
+    st = 'not run'
+    if os.path.exists(rp):
+        r = json.load(open(rp)); st = {0: 'quiet (exit 0)', 1: 'FALSE ALARM (exit 1)', 2: 'UNDECIDED (exit 2): ' + ' '.join(r['lines'])[:140].replace('|', '/')}.get(r['exit'], str(r['exit']))
+    print('| %s | %s | %s |' % (os.path.basename(d), m['property'], st))
+
 if '--into' in sys.argv:
     txt = sys.stdout.getvalue(); sys.stdout = _real_stdout
     p = os.path.join(HERE, 'DESIGN.md'); d = open(p).read()
